@@ -51,6 +51,7 @@ class Proc:
         self.depth = None
         self.atexit = []
         self.exiting = False
+        self.msg_in_progress = None
 
 
 class Task:
@@ -95,6 +96,8 @@ class Task:
         if self.state == "dead":
             _park()
         self.state = "done"
+        self.fn = None            # drop references as a finished thread does (refcounting collects queues etc.)
+        self.thread_obj = None
         w.version += 1
         w._leave(self, finished=True)
         _park()
@@ -436,8 +439,13 @@ class World:
             here = where(p.main, full=True)
         p.alive = False
         p.exitcode = cause
+        mip = p.msg_in_progress
+        partial = None
+        if mip is not None and mip[0]._pipe is not None:
+            partial = [mip[0]._pipe.written - mip[1], mip[2] + 4]   # bytes of the current message already in the pipe
         p.death = {"pid": p.pid, "cause": cause, "injected": injected, "by": by, "step": self.steps,
-                   "where": here, "spawn_index": p.spawn_index}
+                   "where": here, "spawn_index": p.spawn_index, "partial_msg": partial,
+                   "sems_held": sorted(k.name for k in self.sems.values() if any(h[0] == p.pid for h in k.holders))}
         if self.on_death is not None:
             self.on_death(p)
         for u in p.tasks:
@@ -460,7 +468,7 @@ def where(task, full=False):
     import linecache
     while fr is not None:
         fn = fr.f_code.co_filename
-        if "/sim/" not in fn and "threading.py" not in fn:
+        if "/sim/" not in fn and "/vlib/" not in fn and "threading.py" not in fn:
             short = fn.rsplit("/", 1)[-1]
             if full:
                 src = linecache.getline(fn, fr.f_lineno).strip()
